@@ -149,7 +149,7 @@ func HandleSelect(deps ServerDeps, conn net.Conn, tag string, parts []string, st
 			SELECT ROW_NUMBER() OVER (ORDER BY uid ASC) as seq_num, flags
 			FROM message_mailbox
 			WHERE mailbox_id = ?
-		) WHERE flags IS NULL OR instr(' ' || flags || ' ', ' \Seen ') = 0
+		) WHERE flags IS NULL OR instr(' ' || lower(flags) || ' ', ' \seen ') = 0
 		ORDER BY seq_num ASC
 		LIMIT 1
 	`
@@ -239,7 +239,7 @@ func HandleClose(deps ServerDeps, conn net.Conn, tag string, state *models.Clien
 		// Query for all messages with \Deleted flag in the current mailbox
 		rows, err := userDB.Query(`
 			SELECT id FROM message_mailbox
-			WHERE mailbox_id = ? AND instr(' ' || flags || ' ', ' \Deleted ') > 0
+			WHERE mailbox_id = ? AND instr(' ' || lower(flags) || ' ', ' \deleted ') > 0
 		`, state.SelectedMailboxID)
 
 		if err == nil {
